@@ -11,7 +11,9 @@ import (
 	"path/filepath"
 	"sort"
 	"strings"
+	"sync"
 	"testing"
+	"testing/synctest"
 	"time"
 
 	"github.com/whawty/auth/zz_verif/vlib"
@@ -48,7 +50,8 @@ func genC06(t *rapid.T) []c06Req {
 	actors := []string{"adm-zeta", "adm-eta", "usr-theta", "usr-iota", "new-kappa"}
 	tag := 0
 	for i, n := 0, rapid.IntRange(3, 25).Draw(t, "nreq"); i < n; i++ {
-		ep := rapid.SampledFrom([]string{"authenticate", "authenticate", "add", "remove", "update", "update", "update", "set-admin", "list", "list-full", "basic-auth", "advance"}).Draw(t, "endpoint")
+		ep := rapid.SampledFrom([]string{"authenticate", "authenticate", "add", "remove", "update", "update", "update", "set-admin", "list", "list-full", "basic-auth", "advance",
+			"replay-after-expiry", "omit-after-success", "concurrent-logins"}).Draw(t, "endpoint")
 		r := c06Req{Endpoint: ep, Actor: rapid.SampledFrom(actors).Draw(t, "actor"), Target: rapid.SampledFrom(c06Targets).Draw(t, "target"),
 			Shape: rapid.SampledFrom(c06Shapes).Draw(t, "shape"), Admin: rapid.Bool().Draw(t, "admin"), RightPW: rapid.IntRange(0, 2).Draw(t, "rightpw") != 0}
 		tag++
@@ -61,6 +64,10 @@ func genC06(t *rapid.T) []c06Req {
 			}
 		case "advance":
 			r.D = time.Duration(rapid.SampledFrom([]int{1, 100, 299, 300, 301, 599, 600, 601, 700}).Draw(t, "secs")) * time.Second
+		case "replay-after-expiry":
+			r.D = time.Duration(rapid.SampledFrom([]int{1, 100, 300, 590, 599}).Draw(t, "useat")) * time.Second
+		case "omit-after-success":
+			r.Admin = rapid.Bool().Draw(t, "omitnull")
 		case "update":
 			r.Cred = rapid.SampledFrom(c06Creds).Draw(t, "cred")
 			if rapid.IntRange(0, 2).Draw(t, "self") == 0 {
@@ -263,6 +270,152 @@ func runC06(reqs []c06Req) string {
 		before := vlib.TakeSnap(e.root)
 		ctx := fmt.Sprintf("request #%d %+v", i, r)
 
+		if r.Endpoint == "replay-after-expiry" {
+			// mint an admin token, use it while valid (at +D), let it expire, present the very same string again (before use+lifetime)
+			a := anyUserOf(true)
+			if a == "" {
+				continue
+			}
+			tk, ok := mint(mux, a)
+			if !ok {
+				continue
+			}
+			time.Sleep(r.D)
+			if rec := do(mux, "/api/list", jsonObj([]field{{"session", tk}}), nil); rec.Code != 200 {
+				return fmt.Sprintf("VIOLATION C06: a %v old admin token was refused by /api/list (%d); %s", r.D, rec.Code, ctx)
+			}
+			time.Sleep(601*time.Second - r.D)
+			for _, ep := range []string{"list", "list-full", "add", "update"} {
+				body := jsonObj([]field{{"session", tk}, {"username", "new-kappa"}, {"password", "pw-after-expiry"}, {"newpassword", "pw-after-expiry"}, {"admin", true}})
+				if rec := do(mux, "/api/"+ep, body, nil); rec.Code == 200 {
+					return fmt.Sprintf("VIOLATION C06: /api/%s accepted a session token %v after it was issued (lifetime 600 s); it had been used once at age %v; %s", ep, 601*time.Second, r.D, ctx)
+				}
+			}
+			if diff := before.Diff(vlib.TakeSnap(e.root), true, nil); len(diff) > 0 {
+				return fmt.Sprintf("VIOLATION C06: requests with an expired token changed the store: %v", diff)
+			}
+			vlib.NT("c06", "replay-after-expiry", r.D)
+			vlib.Class("composite:token-used-then-replayed-after-expiry")
+			continue
+		}
+		if r.Endpoint == "concurrent-logins" {
+			// a correct and several wrong-password logins (and a wrong-old-password update) of the same user are in flight together:
+			// the dispatcher is parked while they are queued, then released
+			u, ok := m.users[r.Actor]
+			if !ok {
+				continue
+			}
+			sc := &sched{e: e}
+			sc.park()
+			type res struct {
+				code int
+				body string
+			}
+			bodies := []string{
+				jsonObj([]field{{"username", r.Actor}, {"password", u.pw}}),
+				jsonObj([]field{{"username", r.Actor}, {"password", "wrong-1"}}),
+				jsonObj([]field{{"username", r.Actor}, {"password", u.pw + "x"}}),
+			}
+			if r.Admin { // wrong ones first
+				bodies[0], bodies[2] = bodies[2], bodies[0]
+			}
+			out := make([]res, len(bodies)+1)
+			var wg sync.WaitGroup
+			for k, b := range bodies {
+				wg.Add(1)
+				go func(k int, b string) {
+					defer wg.Done()
+					rec := do(mux, "/api/authenticate", b, nil)
+					out[k] = res{rec.Code, rec.Body.String()}
+				}(k, b)
+				synctest.Wait()
+			}
+			wg.Add(1)
+			go func() {
+				defer wg.Done()
+				rec := do(mux, "/api/update", jsonObj([]field{{"username", r.Actor}, {"oldpassword", "wrong-old"}, {"newpassword", "stolen"}}), nil)
+				out[len(bodies)] = res{rec.Code, rec.Body.String()}
+			}()
+			synctest.Wait()
+			sc.release()
+			wg.Wait()
+			for k, b := range bodies {
+				right := strings.Contains(b, `"password":`+string(mustJSON(u.pw))+"}")
+				if (out[k].code == 200) != right {
+					return fmt.Sprintf("VIOLATION C06: of several logins of %q in flight together, the one with body %s got status %d (correct password: %v); %s", r.Actor, b, out[k].code, right, ctx)
+				}
+				if out[k].code != 200 && strings.Contains(out[k].body, `"session"`) {
+					return fmt.Sprintf("VIOLATION C06: a session was issued with status %d", out[k].code)
+				}
+			}
+			if out[len(bodies)].code == 200 {
+				return fmt.Sprintf("VIOLATION C06: /api/update with a wrong old password returned 200 while a correct login of the same user was in flight; %s", ctx)
+			}
+			if ok2, _, _, _, _ := e.s.dir.Authenticate(r.Actor, u.pw); !ok2 {
+				return fmt.Sprintf("VIOLATION C06: the password of %q changed although only a wrong old password was presented; %s", r.Actor, ctx)
+			}
+			vlib.NT("c06", "concurrent-logins", r.Admin)
+			vlib.Class("composite:right-and-wrong-logins-in-flight-together")
+			continue
+		}
+		if r.Endpoint == "omit-after-success" {
+			// a complete, successful request followed at once by the same request with its credential field omitted / null:
+			// nothing of the first request may leak into the second
+			a := anyUserOf(true)
+			u, ok := m.users[r.Actor]
+			if a == "" || !ok {
+				continue
+			}
+			omit := func(fs []field, k string) string {
+				var x []field
+				for _, f := range fs {
+					if f.k == k {
+						if r.Admin {
+							x = append(x, field{k, nil})
+						}
+						continue
+					}
+					x = append(x, f)
+				}
+				return jsonObj(x)
+			}
+			full := []field{{"username", r.Actor}, {"password", u.pw}}
+			if rec := do(mux, "/api/authenticate", jsonObj(full), nil); rec.Code != 200 {
+				return fmt.Sprintf("VIOLATION C06: correct login refused (%d); %s", rec.Code, ctx)
+			}
+			m.toks = append(m.toks, func() c06Token {
+				return c06Token{"", "", false, time.Now()}
+			}())
+			m.toks = m.toks[:len(m.toks)-1]
+			for _, k := range []string{"password", "username"} {
+				if rec := do(mux, "/api/authenticate", omit(full, k), nil); rec.Code == 200 {
+					return fmt.Sprintf("VIOLATION C06: /api/authenticate without %q returned 200 right after a complete successful login (state of the previous request leaked); %s", k, ctx)
+				}
+			}
+			tk, _ := mint(mux, a)
+			fullUpd := []field{{"session", tk}, {"username", "usr-theta"}, {"newpassword", "leak-test-password"}}
+			if _, exists := m.users["usr-theta"]; exists {
+				if rec := do(mux, "/api/update", jsonObj(fullUpd), nil); rec.Code != 200 {
+					return fmt.Sprintf("VIOLATION C06: admin update refused (%d %s); %s", rec.Code, rec.Body.String(), ctx)
+				}
+				m.users["usr-theta"] = mrec{"leak-test-password", m.users["usr-theta"].admin}
+				snap := vlib.TakeSnap(e.root)
+				for _, k := range []string{"session", "username"} {
+					if rec := do(mux, "/api/update", omit(fullUpd, k), nil); rec.Code == 200 {
+						return fmt.Sprintf("VIOLATION C06: /api/update without %q returned 200 right after a complete admin update (state of the previous request leaked); %s", k, ctx)
+					}
+				}
+				if rec := do(mux, "/api/update", jsonObj([]field{{"username", "adm-zeta"}, {"newpassword", "x-leak"}}), nil); rec.Code == 200 {
+					return fmt.Sprintf("VIOLATION C06: credential-less /api/update for another user returned 200 right after an admin update; %s", ctx)
+				}
+				if diff := snap.Diff(vlib.TakeSnap(e.root), true, nil); len(diff) > 0 {
+					return fmt.Sprintf("VIOLATION C06: refused follow-up requests changed the store: %v", diff)
+				}
+			}
+			vlib.NT("c06", "omit-after-success", r.Admin, r.Actor)
+			vlib.Class("composite:field-omitted-right-after-a-successful-request")
+			continue
+		}
 		if r.Endpoint == "basic-auth" {
 			pw := "wrong-password"
 			if u, ok := m.users[r.Target]; ok && r.RightPW {
@@ -586,6 +739,11 @@ func targetClass(r c06Req) string {
 }
 
 func rapid_choice(i int, s []string) string { return s[i%len(s)] }
+
+func mustJSON(v any) []byte {
+	b, _ := json.Marshal(v)
+	return b
+}
 
 func TestC06WebAPI(t *testing.T) {
 	rapid.Check(t, func(rt *rapid.T) {
